@@ -22,12 +22,17 @@ let fmt_path (a, b) = Printf.sprintf "%d.%d" (int_of_n a) (int_of_n b)
 let fmt_out o =
   let l = List.sort compare (List.map (fun (p, s) -> fmt_path p ^ "=" ^ fmt_stats s) o) in
   if l = [] then "-" else String.concat ";" l
+(* compute_config_hash as an injective function: every distinct [languages] table gets a fresh id *)
+let hash_ids : (langs, n) Hashtbl.t = Hashtbl.create 16
+let chash (l : langs) : n =
+  try Hashtbl.find hash_ids l with Not_found ->
+    let id = n_of_int (Hashtbl.length hash_ids + 1) in Hashtbl.add hash_ids l id; id
 let fmt_cache w = match w.w_cache with
   | CAbsent -> "ABSENT" | CCorrupt -> "CORRUPT"
   | CValid (v, h, es) ->
     let l = List.sort compare (List.map (fun (p, e) ->
       Printf.sprintf "%s@%d,%d=%s#%d" (fmt_path p) (int_of_n e.ce_mtime) (int_of_n e.ce_size) (fmt_stats e.ce_stats) (int_of_n e.ce_hash)) es) in
-    Printf.sprintf "v%d %s %s" (int_of_n v) (match h with None -> "HBAD" | Some l -> if l = w.w_cfg then "HCUR" else "HOLD")
+    Printf.sprintf "v%d %s %s" (int_of_n v) (match h with None -> "HBAD" | Some x -> if x = chash w.w_cfg then "HCUR" else "HOLD")
       (if l = [] then "-" else String.concat ";" l)
 let b01 b = if b then "1" else "0"
 let () =
@@ -65,14 +70,14 @@ let () =
         let segs = ref [] in
         let w = ref world0 in
         List.iter (fun o ->
-          let (w', r) = step truth csize !w o in
+          let (w', r) = step truth csize chash !w o in
           w := w';
           match r with
           | Some (a, b) -> segs := (fmt_out a ^ " || " ^ fmt_out b ^ " || " ^ fmt_cache w') :: !segs
           | None -> ()) h;
         print_endline (String.concat " | " (List.rev !segs) ^
-          Printf.sprintf " ## RW=%s RR=%s FORGE=%s MONO=%s TRANSP=%s" (b01 (has_racy_write truth csize h)) (b01 (has_racy_rename truth csize h)) (b01 (has_forgery truth csize h))
-            (b01 (monotone_clock h)) (b01 (transparent truth csize h)))
+          Printf.sprintf " ## RW=%s RR=%s FORGE=%s MONO=%s TRANSP=%s" (b01 (has_racy_write truth csize chash h)) (b01 (has_racy_rename truth csize chash h)) (b01 (has_forgery truth csize chash h))
+            (b01 (monotone_clock h)) (b01 (transparent truth csize chash h)))
       | _ -> print_endline "BADLINE"
     with Failure m -> print_endline ("MODELFAIL " ^ m))
   done with End_of_file -> ()
